@@ -113,6 +113,17 @@ def r1_r2_server(ctx):
             ctx.missing("R10.1", "SYNACK / handle_udp_over_tcp in handle_stream")
 
 
+    # a failure is told apart from success by a non-empty payload: what the failure SYNACK carries is the message itself (or a
+    # copy), never a piece cut out of it — `split_off(n)` returns the *tail*, which is empty for every message shorter than n, and
+    # an empty SYNACK is the success answer
+    for c in text:
+        t = o.of_operand(c.args[1])
+        pay = t[3][2] if is_call_term(t, "Frame::with_data") and len(t[3]) > 2 else None
+        cut = [s_ for s_ in subterms(pay) if isinstance(s_, tuple) and s_ and s_[0] == "call" and s_[1].split("::")[-1] in ("split_off", "split_to", "slice", "slice_ref", "truncate", "drain", "index", "take", "get", "split_at")]
+        ctx.ob("R10.2", "proxy:failure-SYNACK-carries-the-whole-message|L%s" % c.line, pay is not None and not cut, c.site, "the payload is the failure text itself" if pay is not None and not cut else
+               "the failure SYNACK's payload is a piece cut from the message with `%s`: for some (or all) messages that piece is empty, and an empty SYNACK tells the client the open succeeded — the front-end "
+               "answers 'succeeded' for a destination that has no tunnel" % (cut[0][1].split("::")[-1] if cut else "?"))
+
 def r3_client_arm(ctx):
     body = co(ctx, "R10.3", S + "handle_frame")
     if body is None:
